@@ -1052,6 +1052,12 @@ func (r *Run) globalLoc(obj *types.Var) *Loc {
 			r.ctx.DeclareOnce(name, fmt.Sprintf("(declare-const %s %s)", name, srt))
 			t := Term{name, srt}
 			r.ctx.Assert(r.wellTyped(t, obj.Type(), nil))
+			if _, isSl := obj.Type().Underlying().(*types.Slice); isSl {
+				if n, ok := r.prog.globalInitLen(obj); ok {
+					// initialised with a composite literal and never reassigned: its length is the literal's
+					r.ctx.Assert(Eq(slLen(t), mkInt(n)))
+				}
+			}
 			if isErrorType(obj.Type()) {
 				inRepo := obj.Pkg() != nil && strings.HasPrefix(obj.Pkg().Path(), repoModule)
 				fresh, alias := r.prog.globalInit(obj)
@@ -1124,11 +1130,42 @@ func (r *Run) fieldLoc(base Val, idx int) *Loc {
 	switch l.Kind {
 	case LComp:
 		comp := l.Comp + "." + f.Name()
+		if arr, ok := f.Type().Underlying().(*types.Array); ok {
+			// an array stored inline in a struct: its elements live in the element memory of its type, at a base
+			// that is an injective function of (field, object) and different from every allocated reference
+			ec, es := r.elemComp(arr.Elem())
+			return &Loc{Kind: LElem, Comp: ec, Sort: es, Base: r.inlineArrayBase(comp, l.Idx), Off: mkInt(0), Typ: f.Type()}
+		}
 		srt := sortOf(f.Type())
 		r.regComp(comp, arraySort(SInt, srt))
 		return &Loc{Kind: LComp, Comp: comp, Sort: srt, Idx: l.Idx, Typ: f.Type()}
 	}
 	return nil
+}
+
+// inlineArrayBase: the element-memory base of the array field comp of object obj (negative, injective per field and
+// object, distinct between fields); facts are asserted per application, no quantifier.
+func (r *Run) inlineArrayBase(comp string, obj Term) Term {
+	fn := "ab." + sanitize(comp)
+	inv := "abinv." + sanitize(comp)
+	r.ctx.DeclareOnce(fn, fmt.Sprintf("(declare-fun %s (Int) Int)", fn))
+	r.ctx.DeclareOnce(inv, fmt.Sprintf("(declare-fun %s (Int) Int)", inv))
+	r.ctx.DeclareOnce("abtag", "(declare-fun abtag (Int) Int)")
+	if r.abTags == nil {
+		r.abTags = map[string]int{}
+	}
+	if _, ok := r.abTags[comp]; !ok {
+		r.abTags[comp] = len(r.abTags) + 1
+	}
+	b := app(SInt, fn, obj)
+	key := fn + "(" + obj.S + ")"
+	if !r.ctx.declared[key] {
+		r.ctx.declared[key] = true
+		r.ctx.Assert(Lt(b, mkInt(0)))
+		r.ctx.Assert(Eq(app(SInt, inv, b), obj))
+		r.ctx.Assert(Eq(app(SInt, "abtag", b), mkInt(int64(r.abTags[comp]))))
+	}
+	return b
 }
 
 // fieldByName resolves x.name, following embedded fields.
